@@ -6,6 +6,9 @@ From Coq Require Import List NArith Bool Arith Lia Permutation ZifyBool ZifyNat 
 From V Require Import gen.Consts model.Fetcher proofs.Fetcher proofs.FetcherDet proofs.FetcherSched
   proofs.FetcherProps proofs.FetcherProps2 proofs.FetcherLive proofs.FetcherBridge proofs.FetcherExamples.
 Import ListNotations.
+From Coq Require String.
+Import String.StringSyntax.
+Delimit Scope string_scope with string.
 Open Scope N_scope.
 
 Lemma set_farthest_some s kf :
@@ -120,3 +123,46 @@ Example ex_report_delivered :
   exists ev, ch_drain (1 + length (emitted ex_tr)) (fold_left ch_send (emitted ex_tr) c) = [[99]; ev] /\
              In 7 ev /\ In 8 ev.
 Proof. cbv zeta. eexists. split; [vm_compute; reflexivity|]. split; vm_compute; tauto. Qed.
+
+(* ---------------------------------------------------------------- which method the arms call *)
+(* re-read from cmd.rs on every run: the FetchCompleted arm reports an EARLY completion of one record
+   version, the PutLocalRecord arm makes its three calls in this order *)
+Theorem fetch_completed_arm_is_early_lemma : forall k t, fetch_completed_arm k t = Some (NotifyEarly k t).
+Proof. intros k t. reflexivity. Qed.
+
+Theorem put_arm_calls_lemma : forall fk k t r,
+  put_arm_calls = map op_method (arm_ops (PutMaxRecords fk) k t (Some r)).
+Proof. intros. reflexivity. Qed.
+
+(* an early completion of (k, t) ends exactly the fetch of that record version: every other in-flight
+   fetch -- in particular another version of the same key -- keeps running, and only (k, t) leaves the queue *)
+Theorem early_completion_exact_lemma : forall pre k t out post,
+  reachable pre -> step_ok pre (NotifyEarly k t) out post = true ->
+  (forall e, In e (ongoing pre) -> fst e <> (k, t) -> ~ expired pre e -> In e (ongoing post)) /\
+  (forall e, In e (ongoing pre) -> fst e = (k, t) ->
+     forall e', In e' (ongoing post) -> fst e' = fst e -> In (og_pair e') (ret out)).
+Proof.
+  intros pre k t out post HR HS. split.
+  - intros e He Hne Hx. apply (proj1 (leaves_ongoing_lemma _ _ _ _ HR HS e He)).
+    unfold op_keeps. cbn [op_completes schedules far_drops andb negb].
+    destruct (kt_eqb (fst e) (k, t)) eqn:Q; [apply kt_eqb_eq in Q; contradiction|].
+    destruct (og_expired pre e) eqn:X; [apply og_expired_iff in X; contradiction|]. reflexivity.
+  - intros e He Hq e' He' Hq'.
+    apply (proj2 (leaves_ongoing_lemma _ _ _ _ HR HS e He)); auto.
+    unfold op_keeps. cbn [op_completes]. rewrite Hq, kt_eqb_refl. reflexivity.
+Qed.
+
+(* the arrival notification instead (seeded change C08-13) also ends the fetch of the OTHER version *)
+Theorem put_notification_drops_other_version_lemma :
+  exists pre k t t' e out post,
+    reachable pre /\ t <> t' /\ In e (ongoing pre) /\ fst e = (k, t') /\ ~ expired pre e /\
+    arm_method_op "notify_about_new_put"%string k t = Some (NotifyPut k t) /\
+    step_ok pre (NotifyPut k t) out post = true /\ ~ In e (ongoing post).
+Proof.
+  set (pre := last_state init (run_det init [AddKeys 7 [(K 1 1, NonChunk 2)] []; AddKeys 8 [(K 1 1, NonChunk 3)] []])).
+  exists pre, (K 1 1), (NonChunk 2), (NonChunk 3), (OE (K 1 1) 3 8 FETCH_T),
+         (snd (step_det pre (NotifyPut (K 1 1) (NonChunk 2)))), (fst (step_det pre (NotifyPut (K 1 1) (NonChunk 2)))).
+  split; [apply run_det_reachable|]. split; [discriminate|].
+  split; [vm_compute; tauto|]. split; [reflexivity|]. split; [unfold expired; vm_compute; discriminate|].
+  split; [reflexivity|]. split; [vm_compute; reflexivity|]. vm_compute. tauto.
+Qed.
